@@ -1782,3 +1782,74 @@ func scenDisruptPair(x *Ctx) {
 }
 
 func init() { Registry["w2.disruptpair"] = scenDisruptPair }
+
+// ---------------------------------------------------------------- C05/C17: reads at a leader that is removing itself
+
+// scenSelfRemoveRead: leader A of four voters removes itself. The configuration entry reaches everybody, but the
+// acknowledgements of C and D are held, so A still considers the change uncommitted and keeps leading - as a node
+// that is no voter of the configuration it uses. Then {A,B} are cut off from {C,D}. C and D (two of the three
+// voters of the new configuration) elect a leader and acknowledge writes. Reads at A are confirmed by B alone:
+// one voter of three. They must not be answered.
+func scenSelfRemoveRead(x *Ctx) {
+	r := x.R
+	typ := x.P.Str("read", "LR")
+	all, a, ok := x.startStatic(4)
+	if !ok {
+		return
+	}
+	x.Writes(1, a, 3, time.Second)
+	rest := x.others(a)
+	b := pick(r, rest)
+	cd := minus(rest, []string{b})
+	gate := simnet.NewGate()
+	x.C.Net.AddRule(&simnet.Rule{Name: "hold-acks-of-c-and-d", Gate: gate, Match: func(m *mon.Msg, reply bool) bool {
+		return reply && m.Kind == "AE" && m.From == a && (m.To == cd[0] || m.To == cd[1])
+	}})
+	x.Step("leader %s removes itself; the acknowledgements of %v are held", a, cd)
+	done := make(chan struct{})
+	go func() {
+		defer close(done)
+		x.memberOp(a, false, a, false, 3*time.Second)
+	}()
+	if !x.WaitFor(2*time.Second, func() bool {
+		for _, id := range cd {
+			s := x.C.Node(id).Sample()
+			if s == nil || s.Cfg == nil {
+				return false
+			}
+			if _, in := s.Cfg.Members[a]; in {
+				return false
+			}
+		}
+		return true
+	}) {
+		x.Inconclusive("the new configuration did not reach %v", cd)
+		return
+	}
+	if s := x.C.Node(a).Sample(); s == nil || s.State != "leader" {
+		x.Inconclusive("%s is no longer leader", a)
+		return
+	}
+	x.Step("cut {%s,%s} off from %v; %v elect a leader under the new configuration and write", a, b, cd, cd)
+	x.C.Net.Partition([]string{a, b}, cd)
+	l2 := x.C.WaitLeaderAmong(cd, 6*x.ET()+2*time.Second)
+	if l2 == "" {
+		x.Inconclusive("%v elected no leader", cd)
+		return
+	}
+	if x.Writes(2, l2, 3+r.Intn(3), time.Second) == 0 {
+		x.Inconclusive("no write acknowledged by the new leader")
+		return
+	}
+	x.Step("reads at %s, which only %s answers", a, b)
+	w := x.readsAsync(7, a, typ, 6, 150*time.Millisecond, 5*time.Millisecond)
+	w()
+	x.NT("read-at-self-removing-leader")
+	x.Step("heal")
+	x.C.Net.Heal()
+	<-done
+	_ = all
+	x.finishDirected()
+}
+
+func init() { Registry["w2.selfremoveread"] = scenSelfRemoveRead }
